@@ -19,6 +19,7 @@ import (
 	"strconv"
 	"strings"
 	"sync"
+	"testing/iotest"
 
 	"github.com/transparency-dev/witness/verifmc/uni"
 	"golang.org/x/mod/sumdb/tlog"
@@ -82,7 +83,9 @@ func (s *Server) Requests() []string {
 
 // Menu is the list of deviations.
 var Menu = []string{"", "empty", "truncated-half", "truncated-line1", "truncated-line2", "oversize", "non-utf8", "wrong-content", "http-404", "http-500", "conn-reset", "garbage-json", "extra-newlines",
-	"json-null", "json-empty-object", "json-negative-size", "json-odd-hex", "json-nested-nulls", "one-byte", "thirty-one-bytes", "tile-header-only", "tile-huge-count", "drop-last-byte", "append-byte", "zeros-same-length", "http-204", "http-302-no-location"}
+	"json-null", "json-empty-object", "json-negative-size", "json-odd-hex", "json-nested-nulls", "one-byte", "thirty-one-bytes", "tile-header-only", "tile-huge-count", "drop-last-byte", "append-byte", "zeros-same-length", "http-204", "http-302-no-location",
+	// framing of a valid answer: no Content-Length (chunked / streamed / close-delimited), delivered whole or a byte at a time
+	"unknown-length", "unknown-length-bytewise", "unknown-length-empty"}
 
 var errReset = errors.New("verif: connection reset by peer")
 
@@ -257,8 +260,13 @@ func (s *Server) RoundTrip(r *http.Request) (*http.Response, error) {
 	if f != nil {
 		ans = f(i, r.URL.Path)
 	}
+	// As net/http's transport reports it: ContentLength is the advertised
+	// length, or -1 when the answer carries none.
 	mk := func(code int, body []byte) (*http.Response, error) {
-		return &http.Response{StatusCode: code, Status: fmt.Sprintf("%d %s", code, http.StatusText(code)), Body: io.NopCloser(bytes.NewReader(body)), Request: r, Header: http.Header{}, ProtoMajor: 1, ProtoMinor: 1}, nil
+		return &http.Response{StatusCode: code, Status: fmt.Sprintf("%d %s", code, http.StatusText(code)), Body: io.NopCloser(bytes.NewReader(body)), ContentLength: int64(len(body)), Request: r, Header: http.Header{}, ProtoMajor: 1, ProtoMinor: 1}, nil
+	}
+	mkUnknown := func(code int, body io.Reader) (*http.Response, error) {
+		return &http.Response{StatusCode: code, Status: fmt.Sprintf("%d %s", code, http.StatusText(code)), Body: io.NopCloser(body), ContentLength: -1, TransferEncoding: []string{"chunked"}, Request: r, Header: http.Header{}, ProtoMajor: 1, ProtoMinor: 1}, nil
 	}
 	code, body := s.valid(r.URL)
 	switch ans {
@@ -305,9 +313,9 @@ func (s *Server) RoundTrip(r *http.Request) (*http.Response, error) {
 	case "json-empty-object":
 		return mk(200, []byte("{}"))
 	case "json-negative-size":
-		return mk(200, []byte(`{"signedTreeHead":"x","treeID":"` + s.TreeID + `","treeSize":-5,"rootHash":"zz","inactiveShards":[{"treeID":"` + s.TreeID + `","treeSize":-1,"signedTreeHead":""}],"hashes":[]}`))
+		return mk(200, []byte(`{"signedTreeHead":"x","treeID":"`+s.TreeID+`","treeSize":-5,"rootHash":"zz","inactiveShards":[{"treeID":"`+s.TreeID+`","treeSize":-1,"signedTreeHead":""}],"hashes":[]}`))
 	case "json-odd-hex":
-		return mk(200, []byte(`{"hashes":["abc","","0g"],"signedTreeHead":"","treeID":"` + s.TreeID + `"}`))
+		return mk(200, []byte(`{"hashes":["abc","","0g"],"signedTreeHead":"","treeID":"`+s.TreeID+`"}`))
 	case "json-nested-nulls":
 		return mk(200, []byte(`{"hashes":null,"inactiveShards":null,"signedTreeHead":null,"treeID":null,"treeSize":null}`))
 	case "one-byte":
@@ -327,6 +335,12 @@ func (s *Server) RoundTrip(r *http.Request) (*http.Response, error) {
 		return mk(code, append(append([]byte{}, body...), 'Z'))
 	case "zeros-same-length":
 		return mk(code, make([]byte, len(body)))
+	case "unknown-length":
+		return mkUnknown(code, bytes.NewReader(body))
+	case "unknown-length-bytewise":
+		return mkUnknown(code, iotest.OneByteReader(bytes.NewReader(body)))
+	case "unknown-length-empty":
+		return mkUnknown(200, bytes.NewReader(nil))
 	case "http-204":
 		return mk(204, nil)
 	case "http-302-no-location":
